@@ -385,6 +385,30 @@ Section Balance.
     - destruct (color_of l), (color_of r); lia.
   Qed.
 
+  (* the descents visit at most `height` nodes; the fix-up loops recurse on the path they leave *)
+  Lemma descend_depth : forall (cmp : K -> K -> comparison) t k p x p',
+    descend K V cmp t k p = (x, p') -> length p' + height x <= length p + height t.
+  Proof.
+    induction t as [|c l IHl k' v r IHr]; intros k p x p' H; simpl in H.
+    - inv H. lia.
+    - destruct (cmp k' k).
+      + inv H. lia.
+      + apply IHl in H. simpl in *. lia.
+      + apply IHr in H. simpl in *. lia.
+  Qed.
+
+  Lemma max_node_depth : forall t p x p',
+    max_node K V t p = (x, p') -> length p' + height x <= length p + height t.
+  Proof.
+    induction t as [|c l IHl k v r IHr]; intros p x p' H.
+    - simpl in H. inv H. lia.
+    - destruct r as [|rc rl rk rv rr].
+      + simpl in H. inv H. lia.
+      + change (max_node K V (T c l k v (T rc rl rk rv rr)) p)
+          with (max_node K V (T rc rl rk rv rr) (F K V DR c k v l :: p)) in H.
+        apply IHr in H. simpl length in H. simpl height in *. lia.
+  Qed.
+
   Lemma rb_height_bound : forall t, rb_tree t -> 2 ^ height t <= (size t + 1) ^ 2.
   Proof.
     intros t (Hc & n & Hn). pose proof (rbh_size _ _ Hn) as Hs. pose proof (rbh_height _ _ Hn) as Hh.
@@ -392,5 +416,22 @@ Section Balance.
     transitivity (2 ^ (n * 2)).
     - apply Nat.pow_le_mono_r; lia.
     - rewrite Nat.pow_mul_r. apply Nat.pow_le_mono_l. exact Hs.
+  Qed.
+
+  (* search depth: the way found by the descent of Tree_Get/Mem/Set/Rem in a valid tree has at most
+     2*log2(n+1) frames (integer form) *)
+  Lemma rb_search_depth : forall (cmp : K -> K -> comparison) t k x p,
+    rb_tree t -> descend K V cmp t k [] = (x, p) -> 2 ^ length p <= (size t + 1) ^ 2.
+  Proof.
+    intros cmp t k x p Hv Hd. apply descend_depth in Hd. simpl in Hd.
+    transitivity (2 ^ height t); [apply Nat.pow_le_mono_r; lia | now apply rb_height_bound].
+  Qed.
+
+  (* ... and so has the way to the node that Tree_Rem finally takes out (the predecessor) *)
+  Lemma rb_pred_depth : forall p c l k v r k' v' x p',
+    max_node K V l (F K V DL c k' v' r :: p) = (x, p') ->
+    length p' <= length p + height (T c l k v r).
+  Proof.
+    intros p c l k v r k' v' x p' H. apply max_node_depth in H. simpl in *. lia.
   Qed.
 End Balance.
